@@ -71,4 +71,75 @@ theorem go_none_iff (args : List Arg) (exp : Option Ty) :
     | none =>
       simp only [ih, List.mem_cons, forall_eq_or_imp, hv, true_and]
 
+theorem goR_valid (args : List Arg) (exp : Option Ty) :
+    ∀ (vs : List Variant) (k : Nat), (∀ v, v ∈ vs → v.isInvalid = false) →
+      resolveR.go args exp vs k =
+        match resolve.go args exp vs k with
+        | some (i, o) => .chosen i o
+        | none => .noMatch
+  | [], k, _ => rfl
+  | v :: rest, k, h => by
+    unfold resolveR.go resolve.go
+    have hv : v.isInvalid = false := h v List.mem_cons_self
+    simp only [hv, Bool.false_eq_true, ↓reduceIte]
+    rcases ha : attempt v args exp with ⟨r, a⟩
+    cases r with
+    | some o => rfl
+    | none => exact goR_valid args exp rest (k + 1) (fun w hw => h w (List.mem_cons_of_mem _ hw))
+
+theorem goR_invalid_iff (args : List Arg) (exp : Option Ty) :
+    ∀ (vs : List Variant) (k i : Nat),
+      resolveR.go args exp vs k = .invalid i ↔
+        ∃ j, i = k + j ∧ (∃ v, vs[j]? = some v ∧ v.isInvalid = true) ∧
+          ∀ j', j' < j → ∀ w, vs[j']? = some w → w.isInvalid = false ∧ (attempt w args exp).1 = none
+  | [], k, i => by simp [resolveR.go]
+  | v :: rest, k, i => by
+    unfold resolveR.go
+    have ih := goR_invalid_iff args exp rest (k + 1) i
+    cases hv : v.isInvalid
+    · simp only [Bool.false_eq_true, ↓reduceIte]
+      rcases ha : attempt v args exp with ⟨r, a⟩
+      cases r with
+      | some o =>
+        simp only [reduceCtorEq, false_iff]
+        rintro ⟨j, _, ⟨w, hw, hwi⟩, hprev⟩
+        cases j with
+        | zero =>
+          simp only [List.getElem?_cons_zero, Option.some.injEq] at hw
+          subst hw; rw [hv] at hwi; cases hwi
+        | succ j =>
+          have := (hprev 0 (Nat.succ_pos _) v rfl).2
+          rw [ha] at this; cases this
+      | none =>
+        simp only
+        rw [ih]
+        constructor
+        · rintro ⟨j, hi, ⟨w, hw, hwi⟩, hprev⟩
+          refine ⟨j + 1, by omega, ⟨w, by simpa using hw, hwi⟩, ?_⟩
+          intro j' hj' w' hw'
+          cases j' with
+          | zero =>
+            simp only [List.getElem?_cons_zero, Option.some.injEq] at hw'
+            subst hw'; exact ⟨hv, by rw [ha]⟩
+          | succ j' => exact hprev j' (by omega) w' (by simpa using hw')
+        · rintro ⟨j, hi, ⟨w, hw, hwi⟩, hprev⟩
+          cases j with
+          | zero =>
+            simp only [List.getElem?_cons_zero, Option.some.injEq] at hw
+            subst hw; rw [hv] at hwi; cases hwi
+          | succ j =>
+            refine ⟨j, by omega, ⟨w, by simpa using hw, hwi⟩, ?_⟩
+            intro j' hj' w' hw'
+            exact hprev (j' + 1) (by omega) w' (by simpa using hw')
+    · simp only [↓reduceIte, Resolution.invalid.injEq]
+      constructor
+      · rintro rfl
+        exact ⟨0, rfl, ⟨v, rfl, hv⟩, fun j' h => absurd h (Nat.not_lt_zero _)⟩
+      · rintro ⟨j, hi, ⟨w, hw, hwi⟩, hprev⟩
+        cases j with
+        | zero => omega
+        | succ j =>
+          have := (hprev 0 (Nat.succ_pos _) v rfl).1
+          rw [hv] at this; cases this
+
 end GuppyVerif.Overload
